@@ -245,13 +245,16 @@ def r163(ctx) -> None:
             'BAD', 'no `return ResponseBad` under `not ok`')
     # handle_updates loops on the stop event and forwards it
     hcfg = cfg_of(hu)
-    loops = [t for t in hcfg.nodes if t.kind == 'test'
-             and isinstance(t.stmt, ast.While)]
+    recv = hcfg.find(lambda n: any(call_name(c) == 'receive_updates'
+                                   for c in n.calls()))
     ev = None
-    for t in loops:
-        for a, pol in guard_atoms(t.stmt.test):
-            if a.endswith('.is_set()') and not pol:
-                ev = a[:-len('.is_set()')]
+    for p_ in hu.params():
+        # every round: the update is collected only while the event is not
+        # set, and the collecting statement lies on a cycle
+        if recv and all(runs_only_when(hcfg, r, f'{p_}.is_set()', False)
+                        and r in hcfg.reach([r], labels=NORMAL)
+                        for r in recv):
+            ev = p_
     R.check(ev is not None, hu, hu.node,
             'handle_updates loops until the stop event is set',
             'handle_updates does not loop on `not done.is_set()`')
